@@ -174,7 +174,7 @@ def run_c09(tier, seed):
     v.assumptions += ["interleavings are whatever the OS scheduler produces under ThreadSanitizer; each configuration is run in several processes (race reports vary from run to run)",
                       "ThreadSanitizer reports without a Pistache frame (harness or libstdc++ internals) are not judged; shutdown()/destruction gets a 30 s x load bound"]
     return _finish(v, work, counters, distinct, samples, stats,
-                   "endpoint with w in {1,2,4,8} workers sharing one Rest::Router (routes under GET/POST/PUT/DELETE/PATCH/OPTIONS/HEAD) x 1-12 keep-alive client threads x 5-120 requests hitting every method table, 405 (other method registered) and 404, handlers answering from a foreign thread; each response's tag must be the function of its request and no unsolicited bytes may arrive; shutdown() fired after the load, idle with connections open, mid-load, with slow handlers in flight, before any load, twice, after 2w+2 silent connections (nothing / partial head / partial body, opened together so that they expire in one tick on every worker) each got exactly one 408 and EOF from a 1 s read time-out, while accept4 fails with EMFILE (soft descriptor limit lowered, a connection pending), while requests are in flight whose handlers finish only after shutdown() has returned (held at a gate), and from inside a request handler (on a worker thread); one configuration in eleven is served by the blocking Endpoint::serve() on the thread that created and initialised the endpoint; connection churn beside the keep-alive clients, a third of the short-lived connections leaving without waiting for their answer (answers written late by a slow handler or from a foreign thread), plus a storm stage without the sanitizer (32 rounds of 4-10 threads x 300 connections) in which every answer that is read must belong to the request sent on that connection, each round preceded by a connection burst while every worker is inside a handler and by a slow-acceptor phase (acceptor delayed right after the hand-over, 12 MiB answers to late readers must arrive completely); afterwards the port must refuse and /proc/self/task be back at the baseline. Oracle for shared state: ThreadSanitizer. distinct = (workers, clients, shutdown point)")
+                   "endpoint with w in {1,2,4,8} workers sharing one Rest::Router (routes under GET/POST/PUT/DELETE/PATCH/OPTIONS/HEAD) x 1-12 keep-alive client threads x 5-120 requests hitting every method table, 405 (other method registered) and 404, handlers answering from a foreign thread; each response's tag must be the function of its request and no unsolicited bytes may arrive; shutdown() fired after the load, idle with connections open, mid-load, with slow handlers in flight, before any load, twice, after 2w+2 silent connections (nothing / partial head / partial body, opened together so that they expire in one tick on every worker) each got exactly one 408 and EOF from a 1 s read time-out, while accept4 fails with EMFILE (soft descriptor limit lowered, a connection pending), while requests are in flight whose handlers finish only after shutdown() has returned (held at a gate), and from inside a request handler (on a worker thread); one configuration in eleven is served by the blocking Endpoint::serve() on the thread that created and initialised the endpoint; connections for every worker opened the moment the endpoint is up; connection churn beside the keep-alive clients, a third of the short-lived connections leaving without waiting for their answer (answers written late by a slow handler or from a foreign thread), plus a storm stage without the sanitizer (32 rounds of 4-10 threads x 300 connections) in which every answer that is read must belong to the request sent on that connection, each round preceded by a connection burst while every worker is inside a handler and by a slow-acceptor phase (acceptor delayed right after the hand-over, 12 MiB answers to late readers must arrive completely); afterwards the port must refuse and /proc/self/task be back at the baseline. Oracle for shared state: ThreadSanitizer. distinct = (workers, clients, shutdown point)")
 
 def run_c15(tier, seed):
     v = vlib.Verdict("C15", tier, seed, level="exploration")
